@@ -48,7 +48,9 @@ func (c *consumption) Close() error {
 	}
 
 	c.closed = true
-	c.recvQueue.Signal()
+	// wake the worker through the queue: a bare Signal is lost when the worker is
+	// between its closed test and cond.Wait, and it would then wait forever
+	c.recvQueue.Push(nil)
 	return nil
 }
 
